@@ -62,6 +62,10 @@ CHECKS["C04"] = dict(level="model_checking", engine="tlc-trace",
    technique="same pipeline on the three rational instantiations; ShapeTrace.tla requires exact observers and, for the operations documented as exact or best, equality with Best(dom, E) = the intersection of the template half-spaces c.x <= sup_E c.x",
    text="Rational_Box, BD_Shape<mpq_class>, Octagonal_Shape<mpq_class>: recipe histories (drivers x target operation) and free walks. Every observer answer (emptiness, universe, boundedness, containment, disjointness, equality, relations with constraints / congruences / generators, affine dimension, constrains, bounds, optima with witnesses, frequency, returned constraint systems) must be the exact answer for the denoted set; intersection, dimension changes, expressible affine (pre)images, upper bound, difference, unconstrain, constructors at unrestricted complexity and conversions must return the smallest enclosing element of the exact result, upper_bound_assign_if_exact must answer true exactly when the union is that element (Covers oracle); equal sets through different histories must compare equal.",
    note="Trusted: as C03. Known finding: affine_preimage with an expression not mentioning the variable only forgets the variable. The Boolean of simplify_using_context_assign is not asserted (see DESIGN.md).", ref="§5 C04")
+CHECKS["C08"] = dict(level="model_checking", engine="tlc-trace",
+   technique="TLC-generated ascending chains and free walks with widenings on polyhedra, boxes, BD shapes, octagons and grids; the trace specifications judge every widening event: upper bound, equality with the same call on arguments rebuilt through another history, token rule against the plain widening of a copy, limited extrapolations between argument and plain widening keeping the supplied constraints, and strict decrease of the convergence certificate recomputed by the specification",
+   text="Chain recipe: x_0; repeat 2-5 times [copy the iterate, grow it by generators / images / relaxations, widen with the copy], for H79 / BHRZ03 / limited / bounded extrapolations on C and NNC polyhedra, CC76 / BHMZ05 / H79 / limited extrapolations and CC76 narrowing on boxes, BD shapes and octagons (rational, integer and floating-point coefficients), congruence / generator / limited widenings on grids, each with and without tokens. The specification recomputes the H79 certificate (affine dimension, number of constraints), the BHRZ03 certificate (dimension, lineality, constraints, points, rays by zero coordinates), the grid certificate (equalities, proper congruences) and the CC76 stop-point ladder from the logged minimized descriptions.",
+   note="Trusted: TLC, specs/lib oracles, the harnesses. Not covered: the BHZ03 powerset widening (see C09), CC76 certificates on BD shapes / octagons, finite convergence beyond the generated chain lengths (only the per-step certificate decrease is asserted). Known findings: NNC polyhedra widenings and grid widenings depend on the internal representation.", ref="§5 C08")
 NOT_YET = {}
 
 
